@@ -721,6 +721,19 @@ func (fc *fctx) dynamicCall(cc *ssa.CallCommon, args []*Val, pos token.Pos) []*V
 	tr := fc.tr
 	u := tr.u
 	f := fc.val(cc.Value)
+	// a function value loaded from a struct field may have a contract keyed by the field name
+	var fieldContract *FuncContract
+	fieldKey := ""
+	if ld, ok := cc.Value.(*ssa.UnOp); ok {
+		if fa, ok := ld.X.(*ssa.FieldAddr); ok {
+			st := fa.X.Type().Underlying().(*types.Pointer).Elem().Underlying().(*types.Struct)
+			fieldKey = "field:" + st.Field(fa.Field).Name()
+			fieldContract = tr.contracts.Ifaces[fieldKey]
+		}
+	}
+	if fieldContract != nil {
+		defer func() {}()
+	}
 	tr.obligeAssume("safe", "safe/"+fnKey(fc.fn)+"/nil/funcvalue", not(eq(f.E(), "0")), pos)
 	tr.trusted["dynamic calls through function values only bump the ghost counters calls(f,key)/lastArg(f,key); they are assumed not to write memory visible to the caller"] = true
 	if len(args) >= 1 && args[0].Sort == "String" {
@@ -732,6 +745,9 @@ func (fc *fctx) dynamicCall(cc *ssa.CallCommon, args []*Val, pos token.Pos) []*V
 			lrow := "(select " + last + " " + f.E() + ")"
 			tr.setComp("GLast", fmt.Sprintf("(store %s %s (store %s %s %s))", last, f.E(), lrow, args[0].E(), args[1].E()))
 		}
+	}
+	if fieldContract != nil {
+		return fc.callContract(fieldContract, fieldKey, tr.contracts.ExtSigs[fieldKey], append([]*Val{f}, args...), cc.Signature().Results(), pos)
 	}
 	return fc.freshResults(cc.Signature().Results(), "dyn")
 }
